@@ -193,6 +193,10 @@ def make_jobs(prop, spec, tier, vseed, bins, workroot):
                 "VERIF_VERIF_DIR": ROOT,
                 "GORACE": "halt_on_error=1 exitcode=66",
             })
+            # temporary files of the tests live below the work directory of the run and go away with it
+            tmpd = os.path.join(workroot, "tmp")
+            os.makedirs(tmpd, exist_ok=True)
+            env["TMPDIR"] = tmpd
             for k, v in u.get("env", {}).items():
                 env[k] = str(tier_val(v, tier))
             cwd = os.path.join(workroot, name, str(sh))
